@@ -149,6 +149,18 @@ type Runtime struct {
 
 var active atomic.Pointer[Runtime]
 
+// Progress returns a value that changes whenever the simulation makes progress: the number of runs started in
+// this process and the step count of the active run. Read without synchronisation (monitoring only).
+func Progress() (runs int64, steps int64) {
+	runs = runsStarted.Load()
+	if r := active.Load(); r != nil {
+		steps = r.steps
+	}
+	return
+}
+
+var runsStarted atomic.Int64
+
 // Active reports whether a simulated run is in progress.
 func Active() bool { return active.Load() != nil }
 
@@ -427,6 +439,7 @@ func (r *Runtime) Loop() *Result {
 	// The seams are pass-through until the loop starts: the root may run
 	// instrumented code (set-up) before it.
 	active.Store(r)
+	runsStarted.Add(1)
 	defer active.Store(nil)
 	h := uint64(1469598103934665603)
 	for {
